@@ -41,7 +41,7 @@ def main():
                 if fn.endswith('.py'):
                     open(os.path.join(eqdir, fn), 'w').write(open(os.path.join(src, fn)).read().replace(wtname, wt))
             local = os.path.join(eqdir, f'equiv_{x}.py')
-            rc0, before = sh(f'{PY} {local}', cwd=wt, env=env, timeout=1800)
+            rc0, before = sh(f'{PY} {local} 2>/dev/null', cwd=wt, env=env, timeout=1800)
             meta['equiv_rc_before'] = rc0
         rc, out = sh(f'git apply {diff}', cwd=wt)
         if rc != 0:
@@ -50,7 +50,7 @@ def main():
         rc, out = sh('git diff HEAD -- src', cwd=wt)
         patch_text = out
         if os.path.exists(eq):
-            rc1, after = sh(f'{PY} {local}', cwd=wt, env=env, timeout=1800)
+            rc1, after = sh(f'{PY} {local} 2>/dev/null', cwd=wt, env=env, timeout=1800)
             meta['equiv_rc_after'] = rc1
             strip = lambda t: '\n'.join(l for l in (t or '').splitlines() if 'it/s' not in l and 'Warning' not in l and not l.startswith('  warnings.warn'))
             meta['equiv_identical'] = (strip(before) == strip(after)) and rc0 == rc1 and 'Traceback' not in (before or '')[-2000:]
